@@ -444,6 +444,26 @@ func propC06(j *Job) {
 			}
 		}
 	}
+	// blocking writes with a deadline on an unordered stream that also carries data-channel control
+	// messages (always ordered and reliable): writes that give up while the window is closed leave
+	// no trace in the sequence numbers of what is written afterwards
+	for _, mode := range modes[:2] {
+		a := withBase(mode.A, 228, 0xFFFFFFF0, 4000)
+		a.BlockWrite = true
+		b := withBase(mode.B, 228, 9, 4000)
+		b.RecvBuf = 1500
+		var msgs []msgSpec
+		for i := 0; i < 14; i++ {
+			ppi := PayloadProtocolIdentifier(53)
+			if i%4 == 0 {
+				ppi = PayloadTypeWebRTCDCEP
+			}
+			msgs = append(msgs, msgSpec{Size: 400, PPI: ppi})
+		}
+		cases = append(cases, xferCase{Name: fmt.Sprintf("BD/%s/unordered+dcep", mode.Name), K: 0,
+			Spec: &xferSpec{A: a, B: b, PauseReader: 3 * time.Second, NoSackComplete: true, WriteTimeout: 500 * time.Millisecond,
+				Streams: []streamSpec{{SID: 1, From: 0, Unordered: true, Msgs: msgs}}}})
+	}
 	runCases(j, cases, func(spec *xferSpec) func(m *Sim, x *Exec, r *xferResult) { return prFinal(spec, false) })
 	for _, mode := range modes {
 		for _, lim := range []uint32{0, 2} {
